@@ -626,6 +626,9 @@ fn c13_shard(ctx: &Ctx, out: &mut ShardOut) {
     C13F.run(ctx, &pool, 15, ctx.share(ctx.by_tier(240, 4_000)) as u32, &budget_for(ctx.tier, ctx.shard_seed(71)), out);
     let lb = Budget { single: 0, double: 0, coarse2: 0, tapes: ctx.by_tier(24, 200) as usize, tape_seed: ctx.shard_seed(72), triple: 0, stagger: 0 };
     C13M.run(ctx, &pool, 16, ctx.share(ctx.by_tier(128, 4_000)) as u32, &lb, out);
+    // the set wrappers' retain (must stay a conditional removal: an element taken out and inserted
+    // again between the predicate's verdict and the removal is a different entry)
+    set_run(ctx, &pool, out, "retain-set", false, 400, 6_000);
     // sequential agreement with the standard retain is part of C02's operation set; here a small
     // dedicated slice so that C13 does not depend on another check
     let or = crate::seq::Oracles { returns: true, ..Default::default() };
@@ -644,6 +647,7 @@ fn c13_replay(sub: &str, case: &Value) -> Result<(), CaseFail> {
     }
     let pool = Pool::new();
     match sub {
+        "retain-set" => c01_set_replay(&pool, case),
         "retain-resize" => C13Z.replay(&pool, case, &budget_for(Tier::Thorough, 1)),
         "retain-first" => C13F.replay(&pool, case, &budget_for(Tier::Thorough, 1)),
         "retain-long" => C13M.replay(&pool, case, &Budget { single: 0, double: 0, coarse2: 0, tapes: 200, tape_seed: 1, triple: 0, stagger: 0 }),
